@@ -881,21 +881,6 @@ theorem refine_lorentz_scale_partial (k0 : Az) (k1 : Lon) (k2 : Tmp) (f a b c d 
   rw [hr4, interp4_same, lorentz_scale_eval_eq]
   exact congrArg some (cart4_of_scaled k0 k1 k2 f a b c d _ _ _ hS hf)
 
-/-- for τ storage and a negative factor the result does NOT denote `f·(p, t)`: the code stores `τ·f < 0`, whose time
-component is read back as `√max(−τ²f² + f²|p|², 0)`; e.g. `−1 · (0,0,0; τ=1)` should have `t = −1` but
-`lorentz_t` of the result is `0` (and the denotation `√(τ'² + |p'|²)` is `+1`). -/
-theorem refine_lorentz_scale_defect :
-    interp4 (lorentz_scale.ret .xy .z .tau) (lorentz_scale.eval .xy .z .tau (-1) 0 0 0 1)
-        ≠ some (smul4 (-1) (cart4 .xy .z .tau 0 0 0 1))
-      ∧ lorentz_t.eval .xy .z .tau (lorentz_scale.eval .xy .z .tau (-1) 0 0 0 1).1
-          (lorentz_scale.eval .xy .z .tau (-1) 0 0 0 1).2.1 (lorentz_scale.eval .xy .z .tau (-1) 0 0 0 1).2.2.1
-          (lorentz_scale.eval .xy .z .tau (-1) 0 0 0 1).2.2.2 = 0 := by
-  constructor
-  · simp only [d_lorentz_scale, d_spatial_scale, interp4, retAz, retLon, retTmp, cart4, smul4, tOf, mag2Of, xOf, yOf, zOf]
-    norm_num
-  · simp only [d_lorentz_scale, d_spatial_scale, d_lorentz_t, d_lorentz_t2, d_lorentz_tau2, d_spatial_mag2, P.copysign]
-    norm_num
-
 example : ThetaRange .theta 1 := ⟨by norm_num, by linarith [two_le_pi]⟩
 
 /-! ### add / subtract (144 keys each)
@@ -1138,17 +1123,6 @@ theorem refine_lorentz_subtract (k0 : Az) (k1 : Lon) (k2 : Tmp) (k3 : Az) (k4 : 
     rw [cart4_tau_of_causal az lon _ _ _ _ _ hS hso hc1 (by simpa only [sub3, cart3] using hc2)]
     simp only [sub4, sub3, cart4, cart3]
   all_goals simp only [cart4, sub4, tOf_t, hx, hy, hz]
-
-/-- without `hc` the τ,τ keys fail: `(0,0,0; τ=1) − (0,0,0; τ=2)` is stored as `τ' = −1` (denoting `t = +1`, and read back
-by `lorentz_t` as `0`), the exact difference has `t = −1` -/
-theorem refine_lorentz_subtract_defect :
-    interp4 (lorentz_subtract.ret .xy .z .tau .xy .z .tau) (lorentz_subtract.eval .xy .z .tau .xy .z .tau 0 0 0 1 0 0 0 2)
-      ≠ some (sub4 (cart4 .xy .z .tau 0 0 0 1) (cart4 .xy .z .tau 0 0 0 2)) := by
-  simp only [d_lorentz_subtract, d_spatial_subtract, d_lorentz_t, d_lorentz_t2, d_lorentz_tau, d_lorentz_tau2, d_spatial_mag2,
-    interp4, retAz, retLon, retTmp, cart4, sub4, tOf, mag2Of, xOf, yOf, zOf, P.copysign]
-  norm_num
-  have h4 : sqrt 4 = 2 := by rw [show (4 : ℝ) = 2 ^ 2 by norm_num, sqrt_sq (by norm_num)]
-  rw [h4]; norm_num
 
 example : (0 : ℝ) ≤ tOf .xy .z .tau 0 0 0 2 - tOf .xy .z .tau 0 0 0 1 := by
   simp only [tOf, mag2Of, xOf, yOf, zOf]; norm_num
